@@ -6,7 +6,8 @@
                                                 the iteration-order oracle puts its entry first
      mmset <query-hex> <pattern-hex>...         all matching entries "id:caps/id:caps" (or N)
      enum <seg,seg,..> <maxseg> <shard> <n>
-     run <routes> <msgs> <choices>              choices = handler per message as the implementation logged it
+     run <routes> <msgs> <choices>              choices = handler per message as the implementation logged it;
+                                                run() is called again after every failing handler
      runsets <routes> <msgs>                    per message: the matching entries under the specified routing *)
 open Gen_model
 
@@ -77,12 +78,13 @@ let parse_msgs s =
   if s = "-" then [] else
   List.map (fun m -> match split ';' m with
       | [ serial; typ; obj; sender; res; body; nr ] ->
-          let dh = { dh_interface = None; dh_member = (if typ = "c" then Some (bytes_of_string "M") else None);
+          let call = typ = "c" || typ = "k" in
+          let dh = { dh_interface = None; dh_member = (if call then Some (bytes_of_string "M") else None);
                      dh_object = opt_of_hex obj; dh_destination = None;
                      dh_serial = Some (n_of_int (int_of_string serial)); dh_sender = opt_of_hex sender;
                      dh_signature = None; dh_error_name = None;
                      dh_response_serial = (if typ = "c" then None else Some (n_of_int 999)); dh_num_fds = None } in
-          ({ m_typ = (if typ = "c" then MCall else MReply); m_dh = dh; m_flags = N0; m_body = [] },
+          ({ m_typ = (if call then MCall else MReply); m_dh = dh; m_flags = N0; m_body = [] },
            { res = res.[0]; body = list_of_hex body; newroutes = parse_routes nr })
       | _ -> failwith "msg") (split '|' s)
 
@@ -123,6 +125,24 @@ let serial_of (m : msg) = match m.m_dh.dh_serial with Some s -> int_of_n s | Non
 
 let id_perm _ l = l
 
+(* run() is called again after every failing handler (as the harness does) until the input is used up;
+   message numbers for the oracles continue *)
+let rec nat_of_int n = if n = 0 then O else S (nat_of_int (n - 1))
+let rec drop k l = if k = 0 then l else match l with [] -> [] | _ :: r -> drop (k - 1) r
+
+let run_all oracle perm routes (msgs : msg list) =
+  let rec go i routes msgs logs wrs ends =
+    match run_loop oracle perm id_perm (nat_of_int i) msgs routes with
+    | Ok (((log, wr), rf), e) ->
+        let logs = logs @ log and wrs = wrs @ wr in
+        (match e with
+         | EndRecv -> Some (logs, wrs, rf, ends @ [ "conn" ])
+         | EndHandlerErr ->
+             let k = List.length log in
+             go (i + k) rf (drop k msgs) logs wrs (ends @ [ "handler" ]))
+    | _ -> None in
+  go 0 routes msgs [] [] []
+
 let do_run routes msgs choices =
   let routes = List.fold_left (fun acc (p, id) -> add_handler p id acc) [] (parse_routes routes) in
   let ms = parse_msgs msgs in
@@ -131,14 +151,14 @@ let do_run routes msgs choices =
     match List.nth_opt choices (int_of_nat i) with
     | Some c when c <> "D" -> order_first (int_of_string c) l
     | _ -> l in
-  match run_loop (oracle_of (List.map snd ms)) perm id_perm O (List.map fst ms) routes with
-  | Ok (((log, wr), _), e) ->
+  match run_all (oracle_of (List.map snd ms)) perm routes (List.map fst ms) with
+  | Some (log, wr, _, ends) ->
       let logs = List.map (fun ev -> Printf.sprintf "%s;%d;%s" (show_who ev.ev_handler) (serial_of ev.ev_msg) (show_caps ev.ev_caps)) log in
       Printf.sprintf "log=%s replies=%s end=%s"
         (if logs = [] then "-" else String.concat "|" logs)
         (if wr = [] then "-" else String.concat "|" (List.map show_reply wr))
-        (match e with EndRecv -> "conn" | EndHandlerErr -> "handler")
-  | _ -> "log=PANIC replies=PANIC end=PANIC"
+        (String.concat "," ends)
+  | None -> "log=PANIC replies=PANIC end=PANIC"
 
 let matching_set (rt : routes) q =
   let l = List.filter_map (fun (p, h) -> match matches p q with
@@ -154,12 +174,12 @@ let do_runsets routes msgs =
   let n = List.length ms in
   let sets = List.init n (fun k ->
       let pre = take k ms in
-      match run_loop (oracle_of (List.map snd pre)) id_perm id_perm O (List.map fst pre) routes with
-      | Ok (((_, _), rf), EndRecv) ->
+      match run_all (oracle_of (List.map snd pre)) id_perm routes (List.map fst pre) with
+      | Some (_, _, rf, _) ->
           (match (fst (List.nth ms k)).m_dh.dh_object with
            | Some obj -> matching_set rf obj
            | None -> "N")
-      | _ -> "X") in
+      | None -> "X") in
   if sets = [] then "-" else String.concat "|" sets
 
 let () =
